@@ -1,10 +1,157 @@
 package main
 
+import (
+	"bufio"
+	"bytes"
+	"encoding/json"
+	"fmt"
+	"os"
+	"os/exec"
+	"path/filepath"
+	"strings"
+	"time"
+)
+
+// Bounded stand-ins (DESIGN 5): Go test files kept in /verif/bounded, injected into a package of the
+// real code with `go test -overlay` (nothing is written to /repo). Each checks the *assumed contract*
+// of one function that is outside the verifier's subset on an enumerated input family with a stated
+// bound. They are labelled bounded in the evidence and never counted as proved.
+
 type boundedViolation struct {
 	name string
 	body map[string]any
 }
 
+type boundedCfg struct {
+	ID       string `json:"id"`
+	StandsIn string `json:"stands_in_for"`
+	Contract string `json:"contract"`
+	PkgDir   string `json:"pkg_dir"` // relative to the repository root
+	File     string `json:"file"`    // Go test source under /verif/bounded
+	Test     string `json:"test"`    // test function name
+	Bound    string `json:"bound"`
+}
+
+// runBounded protocol: the test prints lines
+//   BOUNDED-CASES <n> exhaustive=<bool> distinct=<m>
+//   BOUNDED-SAMPLE <json>
+//   BOUNDED-FINDING <finding-id> <text>       (a violation matching a recorded finding's class)
+//   BOUNDED-VIOLATION <name> <json input>     (an input that violates the contract)
 func runBounded(repo, root, b, id, tier string, seed int, overlay map[string][]byte, findings []Finding, known *[]string) (map[string]any, []boundedViolation) {
-	return map[string]any{"id": b, "status": "not built"}, nil
+	info := map[string]any{"id": b, "bounded": true}
+	data, err := os.ReadFile(filepath.Join(root, "bounded", b+".json"))
+	if err != nil {
+		info["status"] = "not built"
+		return info, nil
+	}
+	var cfg boundedCfg
+	if err := json.Unmarshal(data, &cfg); err != nil {
+		info["status"] = "bad configuration: " + err.Error()
+		return info, nil
+	}
+	info["stands_in_for"] = cfg.StandsIn
+	info["contract_checked"] = cfg.Contract
+	info["bound"] = cfg.Bound
+	tmp, _ := os.MkdirTemp("", "govc-bounded")
+	defer os.RemoveAll(tmp)
+	ov := map[string]string{}
+	target := filepath.Join(repo, cfg.PkgDir, "zz_bounded_"+strings.ToLower(b)+"_test.go")
+	ov[target] = filepath.Join(root, "bounded", cfg.File)
+	// a mutant overlay is materialised as files too
+	i := 0
+	for path, content := range overlay {
+		f := filepath.Join(tmp, fmt.Sprintf("ov%d.go", i))
+		i++
+		os.WriteFile(f, content, 0o644)
+		ov[path] = f
+	}
+	ovData, _ := json.Marshal(map[string]any{"Replace": ov})
+	ovFile := filepath.Join(tmp, "overlay.json")
+	os.WriteFile(ovFile, ovData, 0o644)
+	timeout := "240s"
+	if tier == "thorough" {
+		timeout = "1500s"
+	}
+	cmd := exec.Command("go", "test", "-overlay", ovFile, "-vet=off", "-count=1", "-timeout", timeout, "-run", "^"+cfg.Test+"$", "-v", ".")
+	cmd.Dir = filepath.Join(repo, cfg.PkgDir)
+	cmd.Env = append(os.Environ(), "GOFLAGS=-mod=mod", "GOPROXY=off", "GOSUMDB=off", "GOTOOLCHAIN=local",
+		"VERIF_TIER="+tier, fmt.Sprintf("VERIF_SEED=%d", seed))
+	var buf bytes.Buffer
+	cmd.Stdout = &buf
+	cmd.Stderr = &buf
+	start := time.Now()
+	runErr := cmd.Run()
+	info["wall_s"] = time.Since(start).Seconds()
+	var viol []boundedViolation
+	var samples []any
+	sawCases := false
+	allOut := buf.String()
+	sc := bufio.NewScanner(strings.NewReader(allOut))
+	sc.Buffer(make([]byte, 1<<20), 1<<24)
+	for sc.Scan() {
+		l := strings.TrimSpace(sc.Text())
+		switch {
+		case strings.HasPrefix(l, "BOUNDED-CASES "):
+			sawCases = true
+			f := strings.Fields(l)
+			var n int
+			fmt.Sscan(f[1], &n)
+			info["cases"] = n
+			for _, kv := range f[2:] {
+				if strings.HasPrefix(kv, "exhaustive=") {
+					info["exhaustive"] = kv == "exhaustive=true"
+				}
+				if strings.HasPrefix(kv, "distinct=") {
+					var m int
+					fmt.Sscan(strings.TrimPrefix(kv, "distinct="), &m)
+					info["distinct"] = m
+				}
+			}
+		case strings.HasPrefix(l, "BOUNDED-SAMPLE "):
+			if len(samples) < 5 {
+				samples = append(samples, strings.TrimPrefix(l, "BOUNDED-SAMPLE "))
+			}
+		case strings.HasPrefix(l, "BOUNDED-FINDING "):
+			f := strings.SplitN(strings.TrimPrefix(l, "BOUNDED-FINDING "), " ", 2)
+			matched := false
+			for _, fd := range findings {
+				if fd.Property == id && fd.Status == "open" && fd.ID == f[0] {
+					matched = true
+					line := fmt.Sprintf("KNOWN-FINDING: property=%s %s %s %s", id, fd.ID, fd.Obligation, fd.What)
+					dup := false
+					for _, k := range *known {
+						dup = dup || k == line
+					}
+					if !dup {
+						*known = append(*known, line)
+					}
+				}
+			}
+			if !matched {
+				text := ""
+				if len(f) > 1 {
+					text = f[1]
+				}
+				viol = append(viol, boundedViolation{f[0], map[string]any{"input": text, "reason": "violates the contract checked by " + b + " and is not a recorded finding"}})
+			}
+		case strings.HasPrefix(l, "BOUNDED-VIOLATION "):
+			f := strings.SplitN(strings.TrimPrefix(l, "BOUNDED-VIOLATION "), " ", 2)
+			text := ""
+			if len(f) > 1 {
+				text = f[1]
+			}
+			if len(viol) < 5 {
+				viol = append(viol, boundedViolation{f[0], map[string]any{"input": text, "reason": "violates the contract checked by " + b,
+					"replay_cmd": fmt.Sprintf("cd %s && go test -overlay <overlay with %s> -vet=off -run '^%s$' -v .", cmd.Dir, cfg.File, cfg.Test)}})
+			}
+		}
+	}
+	info["samples"] = samples
+	if !sawCases {
+		info["status"] = "stand-in did not run to completion"
+		viol = append(viol, boundedViolation{"did-not-complete", map[string]any{"reason": fmt.Sprintf("the bounded stand-in %s did not complete (%v): a panic or a timeout on the real code", b, runErr), "output": truncate(allOut, 4000)}})
+	} else {
+		info["status"] = "completed"
+	}
+	return info, viol
 }
